@@ -6,7 +6,8 @@ PROPS["C17"] = dict(
     props_file="Props/C17.v",
     coq_targets=["Oracle/Check.vo", "Oracle/Proofs.vo", "Oracle/Sound.vo"],
     check_module="Oracle.Check",
-    check_fn="check_case",
+    check_fn="check_case_c",
+    case_type="ccase",
     coq_shard=40,
     streams=[dict(name="main", quick=320, thorough=8000),
              dict(name="extreme", quick=80, thorough=2000)],
